@@ -63,7 +63,11 @@ def _mk(base, name, mapping=False):
     def __bool__(self):
         _log(self, '__bool__')
         return base.__len__(self) > 0
-    ns.update(__iter__=__iter__, __len__=__len__, __contains__=__contains__, __repr__=__repr__, __eq__=__eq__, __bool__=__bool__)
+
+    def __ne__(self, o):
+        _log(self, '__ne__')
+        return base.__ne__(self, o)
+    ns.update(__iter__=__iter__, __len__=__len__, __contains__=__contains__, __repr__=__repr__, __eq__=__eq__, __bool__=__bool__, __ne__=__ne__)
     if hasattr(base, '__getitem__'):
         ns['__getitem__'] = __getitem__
     if hasattr(base, '__reversed__'):
@@ -126,6 +130,10 @@ COrderedDict = _mk(collections.OrderedDict, 'COrderedDict', mapping=True)
 
 
 class _AbcBase:
+    def __ne__(self, o):
+        _log(self, '__ne__')
+        return self is not o
+
     def __init__(self, items, label=None):
         self._d = list(items)
         if label:
@@ -187,6 +195,10 @@ class CAbcSet(_AbcBase, cabc.Set):
 
 
 class CMap(cabc.Mapping):
+    def __ne__(self, o):
+        _log(self, '__ne__')
+        return self is not o
+
     def __init__(self, pairs, label=None):
         self._d = dict(pairs)
         if label:
@@ -227,6 +239,10 @@ class CMap(cabc.Mapping):
 
 # --- one-shot / non-collection iterables (C10) ---------------------------------------------------------------
 class OneShot:
+    def __ne__(self, o):
+        _log(self, '__ne__')
+        return self is not o
+
     """Plain one-shot iterator (no __len__, no __contains__)."""
     def __init__(self, items, label='OneShot'):
         self._it = iter(list(items))
@@ -270,6 +286,10 @@ class CursorLike(SizedOneShot):
 
 
 class OnlyIterable:
+    def __ne__(self, o):
+        _log(self, '__ne__')
+        return self is not o
+
     """Re-iterable but neither sized nor a container."""
     def __init__(self, items, label='OnlyIterable'):
         self._d = list(items)
@@ -285,6 +305,10 @@ class OnlyIterable:
 
 
 class OnlyContainer:
+    def __ne__(self, o):
+        _log(self, '__ne__')
+        return self is not o
+
     def __init__(self, items, label='OnlyContainer'):
         self._d = list(items)
         self._label = label
@@ -299,6 +323,10 @@ class OnlyContainer:
 
 
 class OnlyReversible:
+    def __ne__(self, o):
+        _log(self, '__ne__')
+        return self is not o
+
     def __init__(self, items, label='OnlyReversible'):
         self._d = list(items)
         self._label = label
